@@ -381,7 +381,7 @@ func (s *Script) evalWithRoot(stack, data, root any) (any, Expr) {
 				}
 				stack = tstack
 			case []gen.Node:
-				if n, ok := v.(gen.Node); ok {
+				if n, ok := v.(gen.Node); ok || v == nil {
 					tstack = append(tstack, n)
 					if 0 < len(locKeys) {
 						locs = append(locs, locKeys[vi])
